@@ -233,6 +233,11 @@ func gen(c *lib.Ctx) {
 		}
 	}
 
+	// requests of a foreign client with unique identifiers of every length a request may carry
+	// (RFC 8915: at least 32 octets; the listener refuses what leaves no room for a cookie) x
+	// every number of requested cookies x cookie lengths (session keys of 32 / 64 bytes)
+	foreignUIDs(c, r)
+
 	// every level 1..8 directly
 	for lv := 1; lv <= 8; lv++ {
 		s := ntsx.NewSession(r)
@@ -249,6 +254,176 @@ func gen(c *lib.Ctx) {
 		if b, ok := ntsx.OkHex(ans); !ok || len(b) > maxLen {
 			c.Fail(fmt.Sprintf("fits:level%d", lv), fmt.Sprintf("the request at pool level %d cannot be encoded within MaxPacketLen: %.40s", lv, ans),
 				[]string{fmt.Sprintf("cl.init %s %s %s", ntsx.HexList(pool), lib.Hex(s.C2S), lib.Hex(s.S2C)), op}, map[string]any{"level": lv})
+		}
+	}
+}
+
+func pad4(n int) int { return (n + 3) &^ 3 }
+
+// fits is the property's own arithmetic, independent of net/nts: the largest number of cookie
+// extension fields of cookieLen bytes that an NTS reply of at most maxLen bytes can carry inside
+// its authenticator next to the 48-byte header and the echoed unique identifier
+// (authenticator = 4 header + 4 lengths + 16 nonce + ciphertext, ciphertext = plaintext + 16).
+func fits(uidLen, cookieLen int) int {
+	n := 0
+	for 48+4+pad4(uidLen)+4+4+16+pad4((n+1)*(4+pad4(cookieLen))+16) <= maxLen {
+		n++
+	}
+	return n
+}
+
+// uidLengths: every threshold of the cookie budget (for 124- and 188-byte cookies) at, just
+// below and just above, unaligned lengths, the minimum, and lengths beyond the last one that
+// leaves room for a cookie.
+func uidLengths(r *lib.Rand, nrand int) []int {
+	seen := map[int]bool{}
+	var out []int
+	add := func(u int) {
+		if u >= 32 && u <= 1100 && !seen[u] {
+			seen[u] = true
+			out = append(out, u)
+		}
+	}
+	for _, u := range []int{32, 33, 34, 35, 36, 37, 38, 39, 40, 44, 48, 64, 100, 128, 200, 256, 500, 512, 900, 968, 972, 1000, 1100} {
+		add(u)
+	}
+	for _, cl := range []int{124, 188, 156} {
+		for k := 0; k <= 8; k++ { // the longest identifier next to which k+1 cookies still fit, and around it
+			u := 32
+			for u < 1100 && fits(u+4, cl) > k {
+				u += 4
+			}
+			for _, d := range []int{-4, -1, 0, 1, 3, 4, 5, 8} {
+				add(u + d)
+			}
+		}
+	}
+	for i := 0; i < nrand; i++ {
+		add(int(r.Range(32, 1000)))
+	}
+	return out
+}
+
+func replyOp(r *lib.Rand, req []byte, key []byte, keyID int, nrand int) string {
+	return fmt.Sprintf("srv.reply %s %s keys=[%d:%s] cur=%d:%s rand=%s", lib.Hex(req), lib.Hex(ntsx.Header(r)), keyID, lib.Hex(key), keyID,
+		lib.Hex(key), lib.Hex(r.Bytes(16*nrand)))
+}
+
+// foreignUIDs: the listeners' NTS branch on authentic requests whose unique identifier has any
+// admissible length. Oracle (the property's server clause, evaluated on the real code's reply):
+// the reply is at most MaxPacketLen bytes, 4-byte aligned, decodes, authenticates under the S2C
+// key and the identifier as the server saw it, and carries min(requested, what fits) pairwise
+// distinct fresh cookies, each opening under the current server key to the session keys; when not
+// even one cookie fits the request is refused (no reply), never answered with a broken datagram.
+func foreignUIDs(c *lib.Ctx, r *lib.Rand) {
+	type sess struct {
+		s   ntsx.Session
+		key []byte
+		ck  []byte
+	}
+	mk := func(c2s, s2c int) sess {
+		s := ntsx.Session{Algo: 15, C2S: r.Bytes(c2s), S2C: r.Bytes(s2c)}
+		key := r.Bytes(32)
+		return sess{s, key, ntsx.IssueCookie(c, r, s, key, 7)}
+	}
+	sessions := []sess{mk(32, 32), mk(64, 64), mk(32, 64)}
+	uids := uidLengths(r, c.Scale(6, 120))
+	for ui, ul := range uids {
+		for si, se := range sessions {
+			if si > 0 && !c.Thorough() && ui%4 != si {
+				continue // the longer cookies for a quarter of the lengths each in the quick tier
+			}
+			fit := fits(ul, len(se.ck))
+			reqs := []int{1, 2, 3, 4, 5, 6, 7, 8, 9, 13}
+			if !c.Thorough() { // quick: the budget itself, one below / above it, the maximum a client of this project asks for, one more
+				reqs = nil
+				for _, n := range []int{1, fit - 1, fit, fit + 1, 7, 8, int(r.Range(1, 9))} {
+					dup := n < 1
+					for _, m := range reqs {
+						dup = dup || m == n
+					}
+					if !dup {
+						reqs = append(reqs, n)
+					}
+				}
+			}
+			for _, want := range reqs {
+				uid := r.Bytes(ul)
+				fields := [][]byte{ntsx.RawField(0x104, uid), ntsx.RawField(0x204, se.ck)}
+				phLen := len(se.ck)
+				if 48+4+pad4(ul)+want*(4+pad4(phLen))+40+pad4(16) > 2040 {
+					phLen = 4 // a sender limited by the listener's 2048-byte receive buffer: short placeholders
+				}
+				for j := 1; j < want; j++ {
+					fields = append(fields, ntsx.RawField(0x304, make([]byte, phLen)))
+				}
+				req := ntsx.ForeignPacket(ntsx.Header(r), fields, se.s.C2S, r.Bytes(16), nil)
+				if len(req) > 2048 {
+					c.Count("foreign-uid:skipped-over-2048")
+					continue
+				}
+				op := replyOp(r, req, se.key, 7, want+2)
+				rans := ntsx.Do(c, op)
+				detail := map[string]any{"uid_len": ul, "requested": want, "cookie_len": len(se.ck), "fit": fit, "request_len": len(req)}
+				bucket := "fit"
+				if want > fit {
+					bucket = "capped"
+				}
+				if fit == 0 {
+					bucket = "no-room"
+				}
+				c.Count(fmt.Sprintf("foreign-uid:%s:cookie%d", bucket, len(se.ck)))
+				resp, ok := ntsx.OkHex(rans)
+				if fit == 0 {
+					if ok || ntsx.IsCrash(rans) {
+						detail["answer_len"] = len(resp)
+						c.Fail("reply:no-room", fmt.Sprintf("a request with a %d-byte unique identifier leaves no room for a cookie in a reply of MaxPacketLen bytes, yet the server branch did not refuse it: %.40s", ul, rans),
+							[]string{op}, detail)
+					}
+					continue
+				}
+				if !ok {
+					c.Fail("reply:none", fmt.Sprintf("the server branch does not answer an authentic request with a %d-byte unique identifier asking for %d cookies: %s", ul, want, rans),
+						[]string{op}, detail)
+					continue
+				}
+				detail["reply_len"] = len(resp)
+				if len(resp) > maxLen || len(resp)%4 != 0 {
+					c.Fail("reply:len", fmt.Sprintf("the reply to a request with a %d-byte unique identifier asking for %d cookies has %d bytes (MaxPacketLen %d, 4-byte alignment)", ul, want, len(resp), maxLen),
+						[]string{op}, detail)
+				}
+				seenUID := append(append([]byte(nil), uid...), make([]byte, pad4(ul)-ul)...) // the identifier field as the server decodes it
+				chkOp := fmt.Sprintf("nts.resp %s %s %s", lib.Hex(resp), lib.Hex(se.s.S2C), lib.Hex(seenUID))
+				chk := ntsx.Do(c, chkOp)
+				if !ntsx.IsOK(chk) {
+					detail["requester"] = chk
+					c.Fail("reply:auth", fmt.Sprintf("the reply (%d bytes) to a request with a %d-byte unique identifier asking for %d cookies (%d fit) cannot be decoded and authenticated by the requester: %s", len(resp), ul, want, fit, chk),
+						[]string{op, chkOp}, detail)
+					continue
+				}
+				cs := ntsx.ParseHexList(chk[3:])
+				wantN := want
+				if fit < wantN {
+					wantN = fit
+				}
+				if len(cs) != wantN {
+					detail["cookies"] = len(cs)
+					c.Fail("reply:count", fmt.Sprintf("the reply to a request with a %d-byte unique identifier carries %d cookies for %d requested (%d fit)", ul, len(cs), want, fit),
+						[]string{op, chkOp}, detail)
+				}
+				wantCk := fmt.Sprintf("ok %d %s %s", se.s.Algo, lib.Hex(se.s.S2C), lib.Hex(se.s.C2S))
+				seen := map[string]bool{string(se.ck): true}
+				for _, ck := range cs {
+					if seen[string(ck)] {
+						c.Fail("reply:fresh", "the reply repeats a cookie", []string{op, chkOp}, detail)
+					}
+					seen[string(ck)] = true
+					dop := fmt.Sprintf("ck.decrypt %s %s", lib.Hex(ck), lib.Hex(se.key))
+					if a := ntsx.Do(c, dop); a != wantCk {
+						c.Fail("reply:cookie", "a fresh cookie does not open under the current server key to the session keys: "+a, []string{op, dop}, detail)
+					}
+				}
+			}
 		}
 	}
 }
